@@ -33,6 +33,9 @@ func runC08(c *an.Ctx) {
 	r08i(c)
 	r08j(c)
 	whoMayCancel(c, "R08k")
+	// round 7
+	c.As(map[string]string{"R15i": "R08l"}, func() { r15i(c) })
+	filterOnlyByType(c, "R08m", "FilterCalls")
 }
 
 func r08a(c *an.Ctx) {
@@ -812,12 +815,30 @@ func r08j(c *an.Ctx) {
 	isAwaitChan := func(v ssa.Value) bool {
 		return isFieldNamed(v, "await")
 	}
-	var received func(v ssa.Value, depth int) bool
-	received = func(v ssa.Value, depth int) bool {
+	// blocks in which a receive on the await channel has completed (its block, or a block it dominates)
+	var recvs []ssa.Instruction
+	an.Instrs(fn, func(in ssa.Instruction) {
+		if u, ok := in.(*ssa.UnOp); ok && u.Op == token.ARROW && isAwaitChan(u.X) {
+			recvs = append(recvs, u)
+		}
+	})
+	afterReceive := func(at *ssa.BasicBlock) bool {
+		for _, r := range recvs {
+			if r.Block() == at || r.Block().Dominates(at) {
+				return true
+			}
+		}
+		return false
+	}
+	var received func(v ssa.Value, at *ssa.BasicBlock, depth int) bool
+	received = func(v ssa.Value, at *ssa.BasicBlock, depth int) bool {
 		if depth > 6 {
 			return false
 		}
 		switch x := v.(type) {
+		case *ssa.Const:
+			// the zero value after a completed receive: what a closed channel delivers (`v, ok := <-c.await; if ok {..}`)
+			return an.IsNilConst(x) && afterReceive(at)
 		case *ssa.UnOp:
 			if x.Op == token.ARROW {
 				return isAwaitChan(x.X)
@@ -825,7 +846,7 @@ func r08j(c *an.Ctx) {
 			if al, ok := x.X.(*ssa.Alloc); ok && x.Op == token.MUL {
 				sts := an.ReachingStores(x)
 				for _, st := range sts {
-					if !received(st.Val, depth+1) {
+					if !received(st.Val, st.Block(), depth+1) {
 						return false
 					}
 				}
@@ -849,8 +870,8 @@ func r08j(c *an.Ctx) {
 				return isAwaitChan(u.X)
 			}
 		case *ssa.Phi:
-			for _, e := range x.Edges {
-				if !received(e, depth+1) {
+			for i, e := range x.Edges {
+				if !received(e, x.Block().Preds[i], depth+1) {
 					return false
 				}
 			}
@@ -865,7 +886,7 @@ func r08j(c *an.Ctx) {
 			continue
 		}
 		n++
-		if !received(r.Results[0], 0) {
+		if !received(r.Results[0], r.Block(), 0) {
 			bad = append(bad, c.PosStr(lastPos(r.Block())))
 		}
 	}
